@@ -27,7 +27,7 @@ import (
 //   - migrations: the unique index on the latest completed row of a key;
 //   - sql metadata store: where the CAS and the unique-violation mapping are used.
 
-func init() { registerExtractor("txfacts", extractTxFacts) }
+func init() { registerExtractor("txfacts", c07ExtractTxFacts) }
 
 const (
 	c07StorageDir  = "internal/storage/metadatapart"
@@ -177,7 +177,7 @@ func c07AnalyseStorageMethod(x *ExtractCtx, rel string, fd *ast.FuncDecl) (*c07M
 
 var c07TxLockRe = regexp.MustCompile(`[?&]_txlock=([a-z]+)`)
 
-func extractTxFacts(x *ExtractCtx) error {
+func c07ExtractTxFacts(x *ExtractCtx) error {
 	w := x.Lean
 	fmt.Fprintln(w, "-- Source: "+c07StorageDir+"/*.go, "+c07SqliteFile+", "+c07ObjectRepo+", "+c07Migrations+", "+c07SqlMetaDir+"/*.go")
 	fmt.Fprintln(w, "namespace Pithos.Gen.TxFacts")
